@@ -148,6 +148,9 @@ def stress(ctx, seed, dur_ms, name):
         ctx.oblige("support:%s:completed" % name, "support", False, "no report written; stderr: " + se[-1500:])
         return None
     rep = json.load(open(rp))
+    if rep.get("stalls"):
+        ctx.hit("deadlock-under-concurrency", rep["stalls"][0][:300], dict(replay_base, **{"class": "deadlock-under-concurrency"}, detail=rep["stalls"]))
+    ctx.oblige("support:%s:no-stall" % name, "support", not rep.get("stalls"), json.dumps(rep.get("stalls")))
     if rep.get("panics"):
         ctx.hit("panic-under-concurrency", "panic under concurrency: %s" % rep["panics"][0][:300], dict(replay_base, **{"class": "panic-under-concurrency"}, detail=rep["panics"]))
     if rep.get("mismatch_count", 0):
